@@ -58,7 +58,8 @@ class C06(SpecValueCheck):
 
     def profile(self, tier, shard):
         p = super().profile(tier, shard)
-        p.kinds = [k for k in PER_KINDS] + ['INTEGER'] * 4 + ['ENUMERATED', 'REAL', 'BIT STRING', 'OCTET STRING']
+        p.kinds = [k for k in PER_KINDS] + ['INTEGER'] * 4 + ['ENUMERATED', 'REAL', 'BIT STRING', 'OCTET STRING',
+                                                             'GraphicString', 'GeneralString', 'TeletexString']
         p.real_wc = True
         p.real_wc_near = True
         p.stack_rate = 20
